@@ -159,6 +159,7 @@ type Violation struct {
 // Out collects everything one family run produces.
 type Out struct {
 	family     string
+	tier       string
 	in         *bufio.Writer // replayable input scenarios
 	scn        *bufio.Writer // lines for the Lean driver
 	impl       *bufio.Writer // what the implementation did
